@@ -127,6 +127,24 @@ EXTRA2 = {
     "C19": "Requests whose header carries unroutable destination fields.",
 }
 
+EXTRA3 = {
+    "C02": "Frames delivered before an operation and still subscribed afterwards must come out of read_message exactly once.",
+    "C03": "One configuration keeps the manager's default console handler (rich markup) with names that look like markup.",
+    "C04": "String constants with apostrophes / percent signs / braces; MATLAB quoting rules in the subset interpreter.",
+    "C05": "A receiver that is writable but whose send buffer is nearly full (non-blocking sends would write partial frames).",
+    "C06": "Newcomers (refused or accepted, with and without the logger flag) must not disturb a connected module / logger / sharer of an id / dynamic module.",
+    "C07": "A sibling connection sharing the leaver's id stays and keeps being served; refusal at CONNECT after earlier requests.",
+    "C08": "Frames undecodable for two reasons at once.",
+    "C11": "User fields that are themselves called padding_<n>_.",
+    "C13": "Reserved-looking field names (refused or hash kept in every output and on the wire); relocation paths containing core_defs / core / defs.",
+    "C14": "Observers of notices that are only subscribed to everything; manager-originated CLIENT_INFO that cannot be delivered.",
+    "C15": "Lengths given by float-valued constant expressions.",
+    "C16": "Declared options that differ from the effective ones; outputs requested in separate invocations in one of the two runs.",
+    "C17": "A data set naming a concrete type next to the wildcard; pause / resume while messages wait for their first flush.",
+    "C18": "The 5-second ACTIVE_CLIENTS / CLIENT_INFO broadcast inside an interval.",
+    "C19": "A second logger asking for the connected logger's id; a logger connecting with CONNECT alone.",
+}
+
 ALL = [f"C{i:02d}" for i in range(1, 20)]
 NOT_YET = "check not built yet in this round (planned; see DESIGN.md section 4)"
 
@@ -144,7 +162,7 @@ def main():
             "evidence_file": f"/verif/evidence/{pid}.json",
             "replay_cmd_template": "./vcheck replay {path}",
             "engine": c["engine"],
-            "level_claimed": {"category": c["level"], "text": (c["text"] + " " + EXTRA.get(pid, "") + " " + EXTRA2.get(pid, "")).strip(), "design_ref": c["ref"]},
+            "level_claimed": {"category": c["level"], "text": (c["text"] + " " + EXTRA.get(pid, "") + " " + EXTRA2.get(pid, "") + " " + EXTRA3.get(pid, "")).strip(), "design_ref": c["ref"]},
             "level_note": c["note"],
             "technique": c["technique"],
         })
